@@ -44,6 +44,10 @@ def scenarios(tier, rng):
     for op in ("big_add", "big_sub", "big_div_rem", "big_lower_than"):
         ws = [w for w in bpairs if not (op == "big_div_rem" and w[1] == 0)]
         sc.append({"name": op + "64", "kind": "stdop", "op": op, "n": 64, "witnesses": ws})
+    # operands with different size bounds, a witness bit choosing between them, then a bound-sensitive operation
+    bsel = [[5, 7, 1], [5, 7, 0], [hex((1 << 100) - 1), hex((1 << 192) - 1), 1], [hex((1 << 100) - 1), hex((1 << 192) - 1), 0], [0, 0, 1]]
+    for op in ("bigsel_mul", "bigsel_add", "bigsel_lower_than", "bigsel_swap_mul"):
+        sc.append({"name": op + "100", "kind": "stdop", "op": op, "n": 100, "witnesses": bsel, "prove": op == "bigsel_mul"})
     for op, ws in [("nat_is_zero", [[0], [5], [-1]]), ("nat_inv0", [[0], [5], [-1]]),
                    ("nat_is_equal", [[0, 0], [5, 5], [3, 4], [-1, 0]]), ("nat_sgn0", [[0], [1], [-1], [2]])]:
         sc.append({"name": op, "kind": "stdop", "op": op, "n": 0, "witnesses": ws})
@@ -110,8 +114,8 @@ def run(tier):
                 break
             e = rows[line - 1]
             key = {"circuit": e["circuit"], "res": e["res"]}
-            rep.violation(key, f"structure of circuit {e['circuit']} depends on the witness: witness {e['witness'][:80]} "
-                               f"res={e['res']} first difference: {e['diff'][:200]} counts={e['counts']}",
+            rep.violation(key, f"structure of circuit {e['circuit']} depends on the witness: witness {e.get('witness', '-')[:80]} "
+                               f"res={e['res']} first difference: {e.get('diff', e.get('detail', ''))[:200]} counts={e.get('counts')}",
                           {"scenario": next(s for s in scen if s["name"] == e["circuit"]), "event": e})
             nviol += 1
             rows.pop(line - 1)
